@@ -5,7 +5,7 @@ OUT=${1:-/tmp/seedsweep}; shift
 HERE=$(pwd)
 mkdir -p $OUT /tmp/sp
 IDS=${@:-$(ls $HERE/seeded | grep -E '^C[0-9]+[a-z]$')}
-FAMS=mix,jockey,slotpre,renegesched,schedblock,infblock,ppsched,ps,psfifo,core1,tandem,prio,preempt,cls,clsren,renege,route,sched,schedpre,slot,ccw,ccw2,trk,reroute,stopcount,dead,exact,fault
+FAMS=mix,pause,date0,jsqsched,dead3,jockey,slotpre,renegesched,schedblock,infblock,ppsched,ps,psfifo,core1,tandem,prio,preempt,cls,clsren,renege,route,sched,schedpre,slot,ccw,ccw2,trk,reroute,stopcount,dead,exact,fault
 for ID in $IDS; do
   WT=/tmp/sp/$ID
   git -C /repo worktree remove --force $WT 2>/dev/null; rm -rf $WT
